@@ -94,6 +94,9 @@ def run(eng, ctx):
             ctx.check(only_parsed, "C17.D2", asm.qualname, norm(e.node)[:60], expected=f"guarded by self.{pf} only", found=guard_text(e.guards)[:80], **eng.loc(asm, e.node))
             a0 = e.term[3][0] if e.term[3] else None
             ctx.check(a0 is not None and not mentions(a0, isopt), "C17.D2", asm.qualname, "bytes parsed independent of the options", expected="raw frame", found=show(a0)[:60] if a0 else "-", **eng.loc(asm, e.node))
+        elif e.kind == "return" and not eng.parse_in_assembler:
+            nd2 += 1
+            ctx.undecided("C17.D2", asm.qualname, "assembler result", detail=eng.NOT_FOLLOWED, **eng.loc(asm, e.node))
         elif e.kind == "return":
             nd2 += 1
             for g, leaf in leaves(e.term):
